@@ -48,7 +48,7 @@ def make(shape: Dict[str, Any]) -> Any:
         proto = zc.engine.protocols[0]
         for key, kind in sighted:
             s = cat[key]
-            spec, ttl, uniq = {'PTR': s.ptr, 'SRV': s.srv, 'TXT': s.txt, 'A': lambda: s.addrs(A)[0]}[kind]()
+            spec, ttl, uniq = {'PTR': s.ptr, 'SRV': s.srv, 'TXT': s.txt, 'A': lambda: s.addrs(A)[0], 'NSEC': lambda: s.nsec()[0]}[kind]()
             zc.cache.async_add_records([spec.make(ttl, t0 - ctx.int(f'age_{key}_{kind}', 0, 1500), uniq)])
         # ---- schedule: queries and the withdrawal at symbolic offsets, in time order
         todo: List[Tuple[Any, str, Any]] = []
@@ -162,6 +162,7 @@ QUICK = {
     'ptr-query-twice': sh(registry=['S1'], action='unregister:S1', queries=[PTRQ, PTRQ], offset_max=400),
     'quiet-recased-object': sh(registry=['S1'], action='unregister-recased:S1'),
     'ptr-query-recased-object': sh(registry=['S1', 'S3'], action='unregister-recased:S1', queries=[PTRQ]),
+    'address-query-protected': sh(registry=['S1'], action='unregister:S1', queries=[AQ], sighted=[('S1', 'A'), ('S1', 'NSEC')]),
     'tc-query-pending': sh(registry=['S1'], action='unregister:S1', queries=[TCQ], offset_max=800),
     'tc-query-pending-shared': sh(registry=['S1', 'S2'], action='unregister:S1', queries=[TCQ], offset_max=800),
 }
